@@ -284,6 +284,12 @@ func (m *mavenExtension) compare(e extension) int {
 		if a == b {
 			continue
 		}
+		// A zero spelled with several digits ("00") is still the value the
+		// shorter version is padded with.
+		if ac == versionNumeric && bc == versionEOF && a.int == 0 && a.sep == b.sep && b.str == "0" ||
+			bc == versionNumeric && ac == versionEOF && b.int == 0 && a.sep == b.sep && a.str == "0" {
+			continue
+		}
 		// Special cases for unknown qualifiers (or positive epsilon qualifiers like SP),
 		// which sort funny: 1.0 < 1.SP < 1.foo < 1.1
 		if ac == versionQualifier {
